@@ -32,12 +32,21 @@ META = {
                   'position in the log, one winner per expectation, -1 always accepted, dense log).  The same '
                   'behaviours are executed on the real commit log (lock-step) and as rounds of concurrently '
                   'publishing gRPC clients against a real server with different batching settings; TLC re-judges '
-                  'every recorded step and every recorded round.',
+                  'every recorded step and every recorded round.  Dimensions of the publish-path model beyond the '
+                  'schedule: who publishes (gRPC Publish / PublishAsync, PublishToSubject, the publisher\'s own NATS '
+                  'connection with / without ack inbox, plain NATS message), ack policy, partition paused / resumed by a '
+                  'publish, the PublishAsync session as a two-step actor (publish, then count - bound with a gate), where '
+                  'the stream\'s setting comes from (per-stream option / server-wide setting / option against it), a '
+                  'deleted predecessor with the opposite setting, and how the server comes back (Raft snapshot taken at '
+                  'any of five points x restart / snapshot install on the running server).',
     'level_note': 'Server level: the schedule of a round is whatever the Go scheduler/NATS produce (no gates), the '
                   'verdict uses only what publishers sent/received (one logical clock) and the final log, so a refusal '
                   'is refuted only when the window of possible log ends is exactly the expected offset.  One node, '
                   'replication factor 1, one appender per partition.  Bounds: design check 3 publishers x 3 publishes '
-                  '(quick) / + 2 publishers x 4 publishes (thorough); rounds <= 3 publishers x 4 publishes.',
+                  '(quick) / + 2 publishers x 4 publishes (thorough); rounds <= 3 publishers x 4 publishes.  Messages '
+                  'without an expected-offset field (plain NATS message, PublishToSubject) are outside the statement '
+                  '(handled as "expected offset 0" by the code: implementation level only).  Raw NATS publishes are not '
+                  'sent to a paused partition (a lost message cannot be told from slowness).',
     'design_ref': 'DESIGN.md section 6/C16',
 }
 
@@ -57,6 +66,11 @@ OFF = {'MC_OccPublish': {'MCPause', 'MCRestart', 'MCSnapshot', 'MCInstall', 'MCC
        'MC_OccPublish_life': {'MCPause', 'MCCount', 'MCRead'},
        'MC_OccPublish_life_thorough': {'MCCount', 'MCRead'}}
 RAW = ('nats', 'natsq', 'plain')
+
+
+# VERIF_C16_SKIP_DESIGN=1: the model-only design checks are skipped (their result does not depend on the Go tree; used
+# for re-runs against seeded / mutated trees when the machine cannot hold the TLC runs); never set for evidence runs
+SKIP_DESIGN = bool(os.environ.get('VERIF_C16_SKIP_DESIGN'))
 
 
 def tlc_check(module, cfg, **kw):
@@ -113,10 +127,13 @@ def cl_stats(trace):
 
 def run_commitlog(rep, tier, seed, rng, keepdir):
     thorough = tier == 'thorough'
-    res = tlc_check('MC_CommitLog.tla', 'MC_CommitLog_occ_thorough.cfg' if thorough else 'MC_CommitLog_occ.cfg',
-                         timeout=3000, coverage=thorough)
-    rep.add_design('MC_CommitLog_occ', res)
-    core.log('design check MC_CommitLog_occ: %d distinct states, %.0f s' % (res['distinct'], res['wall']))
+    if SKIP_DESIGN:
+        core.log('VERIF_C16_SKIP_DESIGN: design checks skipped')
+    else:
+        res = tlc_check('MC_CommitLog.tla', 'MC_CommitLog_occ_thorough.cfg' if thorough else 'MC_CommitLog_occ.cfg',
+                        timeout=3000, coverage=thorough)
+        rep.add_design('MC_CommitLog_occ', res)
+        core.log('design check MC_CommitLog_occ: %d distinct states, %.0f s' % (res['distinct'], res['wall']))
     # the OCC-focused configs switch the reader actions off (UseReaders = FALSE; readers are C01/C03's business)
     rep.cov['coverage_zero_actions'] = [z for z in rep.cov['coverage_zero_actions']
                                         if z.split(':')[1] not in ('MCNewReader', 'MCDrain')]
@@ -543,7 +560,7 @@ def run_server(rep, tier, seed, rng):
     for cfgname in (['MC_OccPublish_thorough.cfg', 'MC_OccPublish_thorough2.cfg', 'MC_OccPublish_small.cfg',
                      'MC_OccPublish_who_thorough.cfg', 'MC_OccPublish_hold_thorough.cfg', 'MC_OccPublish_life_thorough.cfg']
                     if thorough else ['MC_OccPublish.cfg', 'MC_OccPublish_small.cfg', 'MC_OccPublish_who.cfg',
-                                      'MC_OccPublish_hold.cfg', 'MC_OccPublish_life.cfg']):
+                                      'MC_OccPublish_hold.cfg', 'MC_OccPublish_life.cfg']) if not SKIP_DESIGN else []:
         res = tlc_check('MC_OccPublish.tla', cfgname, timeout=3000,
                         coverage=thorough and cfgname != 'MC_OccPublish_small.cfg')
         rep.add_design(cfgname[:-4], res)
@@ -556,7 +573,7 @@ def run_server(rep, tier, seed, rng):
         if zero:
             raise core.Inconclusive('actions never taken in the design check %s: %s' % (cfgname, zero))
     # design-level self-test: the broken loops must violate the C16 predicates in the model
-    if thorough:
+    if thorough and not SKIP_DESIGN:
         killed = []
         for mut in MUTS:
             res = tlc_check('MC_OccPublish.tla', 'MC_OccPublish_mut_%s.cfg' % mut, timeout=600)
